@@ -268,7 +268,7 @@ def refute_by_evaluation(goals, env, approx=False, all_syms_seed=0, conds=()):
 
 
 # ---- IEEE (bit-exact) obligations
-def fp_query(ob):
+def fp_query(ob, assumptions=()):
     """QF_FP query: the two operation trees agree for all finite doubles.  Returns text or ('structural', reason)"""
     a, b = ob['a'], ob['b']
     if a is b:
@@ -294,8 +294,16 @@ def fp_query(ob):
                 lines.append(f'(assert (not (fp.isInfinite {t.args[0]})))')
                 name[t.id] = t.args[0]
                 continue
-            aa = [name[x.id] if isinstance(x, Term) else c2fp(x) for x in t.args]
             o = t.op
+            if o == 'mul' and len(t.args) == 2 and isinstance(t.args[0], Term) and not isinstance(t.args[1], Term):
+                # terms.mk rewrites x / c (c constant) as x * (1/c), exact over the reals; restore the division the code performs
+                # when 1/c is not a double but c is
+                c = Fraction(t.args[1])
+                if Fraction(float(c)) != c and c != 0 and Fraction(float(1 / c)) == 1 / c:
+                    name[t.id] = f'f{t.id}'
+                    lines.append(f'(define-fun f{t.id} () (_ FloatingPoint 11 53) (fp.div RNE {name[t.args[0].id]} {c2fp(1 / c)}))')
+                    continue
+            aa = [name[x.id] if isinstance(x, Term) else c2fp(x) for x in t.args]
             if o in ('add', 'sub', 'mul', 'div'):
                 e = f'(fp.{o} RNE {aa[0]} {aa[1]})'
             elif o == 'neg':
@@ -308,8 +316,54 @@ def fp_query(ob):
         rb = name[b.id] if isinstance(b, Term) else c2fp(b)
     except ValueError as e:
         return ('inexact-constant', str(e))
+    # the path's assumptions with the native (double) semantics of the harness, where they translate: the model is then a
+    # point the native replay accepts
+    BOOLOP = {'lt': 'fp.lt', 'le': 'fp.leq', 'eq': 'fp.eq'}
+    for c in assumptions:
+        if not isinstance(c, Term):
+            continue
+        sub = []
+        nm = dict(name)
+        ok = True
+        try:
+            for t in reachable([c]):
+                if t.id in nm:
+                    continue
+                if t.op == 'sym':
+                    if t.sort != 'R':
+                        ok = False
+                        break
+                    sub.append(f'(declare-fun {t.args[0]} () (_ FloatingPoint 11 53))')
+                    sub.append(f'(assert (not (fp.isNaN {t.args[0]})))')
+                    sub.append(f'(assert (not (fp.isInfinite {t.args[0]})))')
+                    nm[t.id] = t.args[0]
+                    continue
+                if t.op in ('add', 'sub'):   # (products and quotients make the bit-blasted query intractable: such assumptions are left out)
+                    aa = [nm[x.id] if isinstance(x, Term) else c2fp(x) for x in t.args]
+                    nm[t.id] = f'(fp.{t.op} RNE {aa[0]} {aa[1]})'
+                elif t.op == 'neg':
+                    nm[t.id] = f'(fp.neg {nm[t.args[0].id]})'
+                elif t.op in BOOLOP:
+                    aa = [nm[x.id] if isinstance(x, Term) else c2fp(x) for x in t.args]
+                    nm[t.id] = f'({BOOLOP[t.op]} {aa[0]} {aa[1]})'
+                elif t.op == 'not':
+                    nm[t.id] = f'(not {nm[t.args[0].id]})'
+                elif t.op in ('and', 'or'):
+                    nm[t.id] = f'({t.op} ' + ' '.join(nm[x.id] if isinstance(x, Term) else ('true' if x else 'false') for x in t.args) + ')'
+                else:
+                    ok = False
+                    break
+        except (ValueError, KeyError):
+            ok = False
+        if ok and c.id in nm:
+            lines += sub
+            lines.append(f'(assert {nm[c.id]})')
+            name.update({k: v for k, v in nm.items() if not v.startswith('(')})
     lines.append(f'(assert (not (fp.eq {ra} {rb})))')
     lines.append('(check-sat)')
+    syms = sorted(set(re.findall(r'\(declare-fun (\S+) \(\)', '\n'.join(lines))))
+    if syms:
+        lines.append('(get-value (' + ' '.join(syms) + '))')
     return '\n'.join(lines) + '\n'
 
 
@@ -467,7 +521,7 @@ def _job_worker(idx):
         for oi, ob in enumerate(obs):
             summary['obligations'] += 1
             if ob['kind'] == 'bits':
-                q = fp_query(ob)
+                q = fp_query(ob, m.assumptions[:ob['nass']])
                 if q is None:
                     summary['trivial'] += 1
                     continue
@@ -477,7 +531,20 @@ def _job_worker(idx):
                     continue
                 f = os.path.join(workdir, f'p{pid}_fp{oi}.smt2')
                 open(f, 'w').write(q)
-                summary['batches'].append(dict(path=pid, kind='bits', file=f, logic='QF_FP', goals=[dict(tag=ob['tag'], k=ob['k'], kind='bits')]))
+                # companion query over the reals: the path's assumptions alone, used to complete a floating-point model with values
+                # for the symbols the QF_FP query does not mention (so that the native replay follows the same path)
+                f_path = None
+                ass = [c for c in m.assumptions[:ob['nass']] if isinstance(c, Term)]
+                if ass:
+                    try:
+                        tp, _, _ = smt.build(ass, [True])
+                        nmz = sorted(t.args[0] for t in symbols_of(ass))
+                        tp = tp.replace('(check-sat)\n', '(check-sat)\n(get-value (' + ' '.join(nmz) + '))\n')
+                        f_path = os.path.join(workdir, f'p{pid}_fp{oi}_path.smt2')
+                        open(f_path, 'w').write(tp)
+                    except Exception:
+                        f_path = None
+                summary['batches'].append(dict(path=pid, kind='bits', file=f, file_path=f_path, logic='QF_FP', goals=[dict(tag=ob['tag'], k=ob['k'], kind='bits')]))
                 continue
             g, trivial = goal_of(ob)
             if trivial:
@@ -762,8 +829,9 @@ def write_vals(path, env, header=''):
                 f.write(f'{k} {int(v) if not isinstance(v, float) else v!r}\n')
 
 
-def native_replay(exe, job, valsfile, timeout=600):
-    r = subprocess.run([exe, job['entry'], f'vals:{valsfile}'] + [str(a) for a in job.get('args', [])], capture_output=True, text=True,
+def native_replay(exe, job, valsfile, timeout=600, rand_seed=None):
+    mode = f'vals:{valsfile}' if rand_seed is None else f'rand:{rand_seed}'
+    r = subprocess.run([exe, job['entry'], mode] + [str(a) for a in job.get('args', [])], capture_output=True, text=True,
                        timeout=timeout)
     chks = {}
     order = []
